@@ -457,6 +457,11 @@ compute_union_field_offsets (GIrTypelibBuild *build,
 		have_error = TRUE;
 	    }
 	}
+      else if (member->type == G_IR_NODE_CALLBACK)
+	{
+          size = MAX (size, ffi_type_pointer.size);
+          alignment = MAX (alignment, ffi_type_pointer.alignment);
+	}
     }
 
   /* Unions are tail-padded out to a multiple of their alignment */
